@@ -90,7 +90,7 @@ pub struct Script {
     pub chunk: usize,
     /// (connection index, real milliseconds): delay the commit reply of that session (a slow run)
     pub slow_commit: Vec<(usize, u64)>,
-    /// `faults` apply to this connection only (None = to every connection)
+    /// `faults` apply to connections with an index below this only (None = to every connection)
     pub faults_only_session: Option<usize>,
     /// replies held back by `HoldOk` are sent this many real milliseconds after the next reply
     pub late_ms: u64,
@@ -189,7 +189,7 @@ async fn write_chunked(s: &mut tokio_rustls::server::TlsStream<tokio::net::TcpSt
 
 async fn serve(mut s: tokio_rustls::server::TlsStream<tokio::net::TcpStream>, session: usize, script: &Script, sh: &Arc<Mutex<Shared>>, t0: Instant) {
     let fault_for = |op: &str, occ: usize| {
-        if script.faults_only_session.map_or(false, |only| only != session) {
+        if script.faults_only_session.map_or(false, |below| session >= below) {
             return None;
         }
         script.faults.iter().find(|(o, k, _)| o == op && *k == occ).map(|(_, _, f)| f.clone())
